@@ -53,6 +53,9 @@ fn main() {
             println!("ref: {:?} at pos {}", res.as_ref().map(|_| ()), r.pos);
             if let Ok(t) = res { println!("{:#?}", t); }
         }
+        "noop" => {
+            println!("vmon ok");
+        }
         "selftest" => {
             let rep = selftest::run();
             let ok = rep["ok"].as_bool().unwrap_or(false);
